@@ -67,8 +67,96 @@ theorem setFg_empty (cs : Chains) (col pos : Nat) (be name v : List Char)
     (hpos : pos < cs.length) (hcell : getCell cs pos col = []) (hv : fgLookup name = some v) :
     setFg cs col pos be name =
       .ok (setCell cs pos col (· ++ (if be == ['P'] then "OP(=O)(O)".toList else be) ++ v), true) := by
-  unfold setFg
+  unfold setFg fgEdit
   have : ¬ (pos ≥ cs.length) := by omega
   simp only [this, if_false, hv, hcell, List.isEmpty_nil, Bool.not_true, Bool.false_and, Bool.false_eq_true]
+
+/-! ### Locality of cell edits -/
+
+theorem setCell_length (cs : Chains) (p c : Nat) (f : List Char → List Char) : (setCell cs p c f).length = cs.length := by
+  simp [setCell]
+
+theorem getCell_setCell_ne (cs : Chains) (p1 c1 p2 c2 : Nat) (f : List Char → List Char) (h : p1 ≠ p2) :
+    getCell (setCell cs p1 c1 f) p2 c2 = getCell cs p2 c2 := by
+  unfold getCell setCell
+  by_cases hlt : p2 < cs.length
+  · have hne : ¬ (p2 = p1) := fun e => h e.symm
+    simp [List.getD, List.getElem?_mapIdx, hlt, hne]
+  · simp [List.getD, List.getElem?_mapIdx, hlt]
+
+theorem setCell_comm (cs : Chains) (p1 c1 p2 c2 : Nat) (f1 f2 : List Char → List Char) (h : p1 ≠ p2) :
+    setCell (setCell cs p1 c1 f1) p2 c2 f2 = setCell (setCell cs p2 c2 f2) p1 c1 f1 := by
+  unfold setCell
+  apply List.ext_getElem
+  · simp
+  · intro i h1 h2
+    simp only [List.getElem_mapIdx]
+    by_cases e1 : i = p1
+    · subst e1
+      have : ¬ (i = p2) := h
+      simp [this]
+    · by_cases e2 : i = p2
+      · subst e2; simp [e1]
+      · simp [e1, e2]
+
+/-- Two `set_fg` calls at different positions commute. -/
+theorem setFg_comm (cs : Chains) (c1 p1 c2 p2 : Nat) (be1 n1 be2 n2 : List Char) (h : p1 ≠ p2) :
+    bindO (setFg cs c1 p1 be1 n1) (fun (cs1, ok1) => bindO (setFg cs1 c2 p2 be2 n2) (fun (cs2, ok2) => Outcome.ok (cs2, ok1 && ok2))) =
+    (match setFg cs c1 p1 be1 n1, setFg cs c2 p2 be2 n2 with
+     | .ok (_, ok1), .ok (_, ok2) =>
+       bindO (setFg cs c2 p2 be2 n2) (fun (csb, _) => bindO (setFg csb c1 p1 be1 n1) (fun (cs2, _) => Outcome.ok (cs2, ok1 && ok2)))
+     | .ok _, .error e => .error e
+     | .ok _, .unmodelled => .unmodelled
+     | .error e, _ => .error e
+     | .unmodelled, _ => .unmodelled) := by
+  unfold setFg
+  by_cases h1 : p1 ≥ cs.length
+  · simp [h1, bindO]
+  · by_cases h2 : p2 ≥ cs.length
+    · simp only [h1, h2, if_false, if_true]
+      cases fgEdit (getCell cs p1 c1) be1 n1 with
+      | ok r => obtain ⟨f, ok⟩ := r; simp [bindO, setCell_length, h2]
+      | error e => simp [bindO]
+      | unmodelled => simp [bindO]
+    · simp only [h1, h2, if_false]
+      cases e1 : fgEdit (getCell cs p1 c1) be1 n1 with
+      | error e => simp [bindO]
+      | unmodelled => simp [bindO]
+      | ok r1 =>
+        obtain ⟨f1, ok1⟩ := r1
+        cases e2 : fgEdit (getCell cs p2 c2) be2 n2 with
+        | error e => simp [bindO, setCell_length, h2, getCell_setCell_ne _ _ _ _ _ _ h, e2]
+        | unmodelled => simp [bindO, setCell_length, h2, getCell_setCell_ne _ _ _ _ _ _ h, e2]
+        | ok r2 =>
+          obtain ⟨f2, ok2⟩ := r2
+          have h' : p2 ≠ p1 := fun e => h e.symm
+          simp [bindO, setCell_length, h1, h2, getCell_setCell_ne _ _ _ _ _ _ h, getCell_setCell_ne _ _ _ _ _ _ h', e1, e2,
+            setCell_comm _ _ _ _ _ _ _ h]
+
+end Gly.React
+
+namespace Gly.React
+
+theorem fgEdit_ok (cur be name v : List Char) (hv : fgLookup name = some v) (hne : v ≠ []) :
+    ∃ f, fgEdit cur be name = .ok (f, true) := by
+  unfold fgEdit
+  rw [hv]
+  cases v with
+  | nil => exact absurd rfl hne
+  | cons v0 vs =>
+    cases cur with
+    | nil => exact ⟨_, rfl⟩
+    | cons c cs =>
+      simp only [List.isEmpty_cons, Bool.not_false, Bool.true_and, if_true, List.head?_cons]
+      split <;> exact ⟨_, rfl⟩
+
+theorem setFg_ok (cs : Chains) (col pos : Nat) (be name v : List Char) (hpos : pos < cs.length)
+    (hv : fgLookup name = some v) (hne : v ≠ []) :
+    ∃ f, setFg cs col pos be name = .ok (setCell cs pos col f, true) := by
+  obtain ⟨f, hf⟩ := fgEdit_ok (getCell cs pos col) be name v hv hne
+  refine ⟨f, ?_⟩
+  unfold setFg
+  have : ¬ (pos ≥ cs.length) := by omega
+  simp [this, hf]
 
 end Gly.React
